@@ -47,7 +47,7 @@ def directed(rng: random.Random) -> dict:
     kind = rng.choice(["shadow_chain", "sibling_reuse", "qualified_forward", "qualified_backward", "leak_inner", "leak_sibling", "leak_macro", "leak_macro_qualified",
                        "leak_loop", "symbol_kinds", "named_in_named", "macro_local_vs_outer", "shadow_unsized", "block_if_label", "named_in_loop", "named_in_macro",
                        "const_shadowed_by_later_inner", "symbol_kinds_unsized", "parameter_names_at_call_site", "application_expanding_to_nothing", "namespace_reopened", "self_qualified",
-                       "same_scope_name_nested_later", "leak_named_scope_in_anonymous", "chain_through_empty_scopes"])
+                       "same_scope_name_nested_later", "leak_named_scope_in_anonymous", "chain_through_empty_scopes", "assign_in_loop_shadows_outer"])
     expect_reject = False
     nop = {"k": "ins", "m": "nop", "shape": "imp", "sz": "", "e": None}
     if kind == "shadow_chain":
@@ -189,6 +189,16 @@ def directed(rng: random.Random) -> dict:
                  {"k": "scope", "n": "hollow", "b": [{"k": "block", "b": [{"k": "data", "d": "db", "es": [E("kk")]}, dl("later")]}, {"k": "call", "n": "pm2", "as": []}]},
                  {"k": "for", "v": "itC", "a": E(0), "b": E(2), "body": [{"k": "block", "b": [{"k": "block", "b": [{"k": "data", "d": "db", "es": [E("itC", "+", "kk")]}]}]}]},
                  lab("later"), nop]
+    elif kind == "assign_in_loop_shadows_outer":
+        # a constant assigned inside a loop body (or inside a block, a macro) is local to that iteration / scope although an enclosing
+        # scope has a constant, a parameter or a loop variable of the same name
+        dbp = lambda *n: {"k": "data", "d": "db", "es": [E(x) if not isinstance(x, list) else x for x in n]}  # noqa: E731
+        loop = {"k": "for", "v": "itS", "a": E(0), "b": E(3), "body": [{"k": "assign", "n": "addr", "e": E(0x20, "+", "itS")}, dbp("addr")]}
+        body += [{"k": "assign", "n": "addr", "e": E(0x10)}, dbp("addr"), loop, dbp("addr"),
+                 {"k": "macro", "n": "macV", "ps": ["addr"], "b": [dbp("addr"), {"k": "for", "v": "itT", "a": E(0), "b": E(2), "body": [{"k": "assign", "n": "addr", "e": E("itT")}, dbp("addr")]}, dbp("addr")]},
+                 {"k": "call", "n": "macV", "as": [E(0x42)]},
+                 {"k": "for", "v": "outer", "a": E(5), "b": E(7), "body": [{"k": "for", "v": "itU", "a": E(0), "b": E(2), "body": [{"k": "assign", "n": "outer", "e": E("itU", "+", 0x70)}, dbp("outer")]}, dbp("outer")]},
+                 {"k": "block", "b": [{"k": "assign", "n": "addr", "e": E(0x30)}, dbp("addr")]}, dbp("addr")]
     elif kind == "sibling_reuse":
         for i in range(rng.randint(2, 4)):
             body.append({"k": "block", "b": [dl("loop1"), lab("loop1"), nop, dl("loop1"), {"k": "block", "b": [dl("loop1")]}]})
@@ -312,6 +322,27 @@ def check_program(res: Res, p: dict, rng: random.Random) -> None:
         res.count("model_unspecified")
     if not r0.ok:
         return
+    # the diagnostic switch that prints the symbol table (Program(dump_symbols=True), x816 --dump-symbols) is no input of the assembly
+    if rng.random() < 0.2:
+        try:
+            from a816.program import Program
+            from vf.harness import Scratch, run_program
+
+            dumping = Program(dump_symbols=True)
+        except TypeError:
+            dumping = None
+        if dumping is not None:
+            src_d, files_d = __import__("vf.progcheck", fromlist=["materialise"]).materialise(p)
+            if p.get("rom") == "high":
+                from a816.cpu.cpu_65c816 import RomType
+                dumping.resolver.rom_type = RomType.high_rom
+            with Scratch(files_d or {}):
+                rd = run_program(dumping, src_d)
+            res.count("runs_with_dump_symbols")
+            if not rd.ok or [(a, bytes(b)) for a, b in rd.blocks] != [(a, bytes(b)) for a, b in r0.blocks] or sorted(rd.labels) != sorted(r0.labels):
+                d = blocks_equal([(a, b) for a, b in r0.blocks], rd.blocks) if rd.ok else f"rejected: {rd.err_kind}: {rd.err_text[:160]}"
+                res.violate("dump-symbols-changes-output", f"assembling with the symbol dump switched on changes the result: {d or 'label values differ'}", wit)
+                return
     # twin 1: consistent renaming of a scope-local name
     shared = names_in_macro_bodies(p["prog"]) | early_names(p["prog"])
     scope_names = [st["n"] for st, _, _ in walk(p["prog"]) if st["k"] == "scope"]
